@@ -40,6 +40,24 @@ pub fn custom_scalar_valid(v: &Value) -> bool {
     }
 }
 
+/// A (nested) list of leaf values as one plain `Value::List`; `None` when an object reference occurs in it.
+fn plain_leaf_list(items: &[WVal]) -> Option<Value> {
+    let mut out = Vec::with_capacity(items.len());
+    for it in items {
+        out.push(match it {
+            WVal::Null => Value::Null,
+            WVal::Int(i) => Value::from(*i),
+            WVal::Float(f) => Value::from(*f),
+            WVal::Str(s) => Value::String(s.clone()),
+            WVal::Bool(b) => Value::Boolean(*b),
+            WVal::Enum(e) => Value::Enum(Name::new(e)),
+            WVal::List(inner) => plain_leaf_list(inner)?,
+            WVal::Ref(_) => return None,
+        });
+    }
+    Some(Value::List(out))
+}
+
 fn wval_to_field_value(world: &World, sch: &Sch, ty: &Ty, v: &WVal, invalid: bool) -> Option<FieldValue<'static>> {
     match v {
         WVal::Null => None,
@@ -64,6 +82,11 @@ fn wval_to_field_value(world: &World, sch: &Sch, ty: &Ty, v: &WVal, invalid: boo
                 Ty::List(i) => (**i).clone(),
                 t => t.clone(),
             };
+            if world.plain_leaf_lists && !invalid {
+                if let Some(v) = plain_leaf_list(items) {
+                    return Some(FieldValue::value(v));
+                }
+            }
             Some(FieldValue::list(items.iter().map(|it| wval_to_field_value(world, sch, &inner, it, invalid).unwrap_or(FieldValue::NULL))))
         }
         WVal::Ref(n) => {
